@@ -58,7 +58,7 @@ fn("orm/state.py::InstanceState._detach_states", abstract=True, params=["self", 
    ensures=["all(s.session_id is None and s._strong_obj is None for s in states)"], may_raise={"Exception": "True"},
    notes="assumed here, proved below as _detach_states#loop")
 fn(S + "_detach", cls="IStateE", props=["C48"], types={"session": "v"}, consts=K, returns="none",
-   callees={"InstanceState._detach_states": dict(fn="orm/state.py::InstanceState._detach_states", args=["None", "$0", "$1", "False"])},
+   callees={"InstanceState._detach_states": dict(fn="orm/state.py::InstanceState._detach_states", args=["None", "$0", "$1", "False"], expect="InstanceState._detach_states([self], session)")},
    requires=[STRONG], ensures=[STRONG, "not truth(self.session_id)"], may_raise={"Exception": "True"},
    modifies=["self.session_id", "self._strong_obj", "self.key"])
 
